@@ -551,3 +551,110 @@ def check_c03_all(ctx, R):
                       "%s reads the scratch key `%s` of the element under construction without removing it" % (f.qualname, short(c.slice, 50)))
     R.count("scratch-key reads in the EDIF reader (B5)", k)
     R.floor("scratch-key reads in the EDIF reader (B5)", 6)
+    R.rule("B6", "dependency order: the depth-first sort emits a cell / library only after everything it depends on")
+    n6, _T = check_dependency_order(ctx, R, "B6")
+    R.count("dependency-sort obligations (B6)", n6)
+    R.floor("dependency-sort obligations (B6)", 3)
+
+
+# ---------------------------------------------------------------------------------------------- dependency order
+def toposort_template(P):
+    """the iterative depth-first dependency sort of the EDIF writer, recognised by shape: a function (possibly nested) whose
+    `while <stack>` loop peeks `x = <stack>[-1]`, pushes dependencies and pops / emits when nothing was pushed.
+    Returns dict(method, worker, loop, stack, cur, pushes=[(call, child var, guard If or None)], vis_adds, emits, pop_if, driver)"""
+    cc = P.cls(COMP, "ComposeEdif")
+    for mname, f in sorted(cc.methods.items()):
+        for fn in [n for n in ast.walk(f.node) if isinstance(n, ast.FunctionDef)]:
+            for w in [n for n in ast.walk(fn) if isinstance(n, ast.While)]:
+                peek = [a for a in w.body if isinstance(a, ast.Assign) and isinstance(a.value, ast.Subscript) and isinstance(a.value.value, ast.Name)
+                        and isinstance(a.value.slice, ast.UnaryOp) and isinstance(a.targets[0], ast.Name)]
+                if not peek or peek[0].value.value.id not in norm(w.test):
+                    continue
+                stack, cur = peek[0].value.value.id, peek[0].targets[0].id
+                pushes = []
+                for c in ast.walk(w):
+                    if isinstance(c, ast.Call) and isinstance(c.func, ast.Attribute) and c.func.attr == "append" and norm(c.func.value) == stack and c.args:
+                        g = next((p_ for p_ in parent_chain(c) if isinstance(p_, ast.If)), None)
+                        if g is not None and not any(g is x for x in ast.walk(w)):
+                            g = None
+                        pushes.append((c, norm(c.args[0]), g))
+                pop_if = [s_ for s_ in w.body if isinstance(s_, ast.If) and any(isinstance(c, ast.Call) and isinstance(c.func, ast.Attribute) and c.func.attr == "pop"
+                                                                               and norm(c.func.value) == stack for c in ast.walk(s_))]
+                if not pushes or not pop_if:
+                    continue
+                emits = [c for c in ast.walk(pop_if[0]) if isinstance(c, ast.Call) and isinstance(c.func, ast.Attribute) and c.func.attr == "append"
+                         and norm(c.func.value) != stack and c.args and norm(c.args[0]) == cur]
+                vis = None
+                for c, child, g in pushes:
+                    if g is not None:
+                        for t in ast.walk(g.test):
+                            if isinstance(t, ast.Compare) and len(t.ops) == 1 and isinstance(t.ops[0], ast.NotIn) and norm(t.left) == child:
+                                vis = vis or norm(t.comparators[0])
+                adds = [c for c in ast.walk(f.node) if isinstance(c, ast.Call) and isinstance(c.func, ast.Attribute) and c.func.attr == "add"
+                        and vis is not None and norm(c.func.value) == vis]
+                driver = [lp for lp in ast.walk(f.node) if isinstance(lp, ast.For) and not any(lp is x for x in ast.walk(fn))
+                          and any(isinstance(c, ast.Call) and isinstance(c.func, ast.Name) and c.func.id == fn.name for c in ast.walk(lp))]
+                return dict(method=f, worker=fn, loop=w, stack=stack, cur=cur, pushes=pushes, vis=vis, vis_adds=adds, emits=emits, pop_if=pop_if[0], driver=driver)
+    return None
+
+
+def check_dependency_order(ctx, R, rid):
+    """cells and libraries are written after what they depend on (the reader resolves cellRef / libraryRef against what it has
+    already read): the depth-first sort emits a node only after its dependencies"""
+    from ..pairing import alts_of
+    T = toposort_template(ctx.P)
+    if T is None:
+        raise AnalysisError("anchor vanished: the iterative depth-first dependency sort of the EDIF writer (shape not recognised)")
+    f = T["method"]
+    stack, cur, vis = T["stack"], T["cur"], T["vis"]
+    n = 0
+    # (a) a dependency is pushed unless it was already emitted — and for no other reason
+    for c, child, g in T["pushes"]:
+        n += 1
+        if g is None or vis is None:
+            R.bad(rid, "%s|push unguarded" % f.key, f.loc(c), "%s pushes `%s` without testing whether it was already written" % (f.qualname, child))
+            continue
+        skips = [alt for alt in alts_of(g.test, False) if ("in(%s,%s)" % (child, vis)) not in alt]
+        if skips:
+            R.bad(rid, "%s|push guard" % f.key, f.loc(g),
+                  "%s skips pushing the dependency `%s` for a reason other than `%s in %s` (guard `%s`): a cell that is still waiting on the stack is not "
+                  "moved above its user, so the user is written first and the reader finds a reference to a cell it has not seen"
+                  % (f.qualname, child, child, vis, short(g.test, 60)))
+        else:
+            R.ok(rid, "%s: a dependency is pushed unless it was already written" % f.qualname, f.loc(g))
+    # (b) `written` means written: the set is extended only where the node is emitted
+    emit_blocks = []
+    for e in T["emits"]:
+        blk = next((p_ for p_ in parent_chain(e) if isinstance(p_, (ast.If, ast.While, ast.For, ast.FunctionDef))), None)
+        emit_blocks.append(blk)
+    for a in T["vis_adds"]:
+        n += 1
+        blk = next((p_ for p_ in parent_chain(a) if isinstance(p_, (ast.If, ast.While, ast.For, ast.FunctionDef))), None)
+        same = any(blk is b for b in emit_blocks) and a.args and norm(a.args[0]) == cur
+        if same:
+            R.ok(rid, "%s: `%s.add` happens where the node is emitted" % (f.qualname, vis), f.loc(a))
+        else:
+            R.bad(rid, "%s|marked early" % f.key, f.loc(a),
+                  "%s marks `%s` as done (`%s`) at a point where it is not emitted: a node that is only waiting on the stack counts as written, so "
+                  "a second user that depends on it does not push it and is emitted before it" % (f.qualname, norm(a.args[0]) if a.args else "?", short(a, 40)))
+    if not T["vis_adds"]:
+        n += 1
+        R.bad(rid, "%s|never marked" % f.key, f.loc(), "%s never records what it has emitted" % f.qualname)
+    # (c) emission happens only when nothing was pushed for the node, once
+    n += 1
+    t = T["pop_if"].test
+    peek_eq = isinstance(t, ast.Compare) and len(t.ops) == 1 and isinstance(t.ops[0], (ast.Eq, ast.Is)) and {norm(t.left), norm(t.comparators[0])} == {"%s[-1]" % stack, cur}
+    if not T["emits"]:
+        R.bad(rid, "%s|no emission" % f.key, f.loc(T["pop_if"]), "%s pops a node without emitting it" % f.qualname)
+    elif not peek_eq:
+        R.bad(rid, "%s|emit condition" % f.key, f.loc(T["pop_if"]),
+              "%s emits the node under `%s`, not when it is still on top of the stack (i.e. when none of its dependencies had to be pushed)" % (f.qualname, short(t, 50)))
+    else:
+        e = T["emits"][0]
+        guards = [p_ for p_ in parent_chain(e) if isinstance(p_, ast.If) and p_ is not T["pop_if"] and any(p_ is x for x in ast.walk(T["pop_if"]))]
+        once = any(("notin(%s,%s)" % (cur, vis)) in alt for g in guards for alt in alts_of(g.test, True)) if vis else False
+        if once or not vis:
+            R.ok(rid, "%s emits a node when none of its dependencies is pending, and once" % f.qualname, f.loc(e))
+        else:
+            R.bad(rid, "%s|emit once" % f.key, f.loc(e), "%s can emit a node twice (no `%s not in %s` test at the emission): the cell is written twice" % (f.qualname, cur, vis))
+    return n, T
